@@ -106,6 +106,7 @@ macro_rules! c03_gamma {
 //@ assumes: utils::ziggurat, libm::{log,pow,sqrt} by contract
 c03_gamma!(c03_gamma_f64, f64, 1e-3, 1e6, 1e-100, 1e100);
 //@ id: c03_gamma_f32
+//@ besteffort: yes
 //@ prop: C03
 //@ tier: thorough
 //@ cap: 1500
